@@ -30,6 +30,7 @@ def cells(tier, seed):
         three = [p for p in R.programs(3) if len(p) == 3]
         rng.shuffle(three)
         progs = progs + three[:500]
+    progs = list(progs) + [('fromAd',), ('fromAd', 'A>B'), ('A>B', 'fromAd'), ('fromAd', 'dilA')]
     for prog in progs:
         out.append({'id': 'prog/' + ','.join(prog), 'fn': 'h_prog', 'round': 'lite', 'max_paths': 400,
                     'cost': 2 ** len(prog), 'params': {'prog': list(prog)}})
